@@ -8,6 +8,13 @@ SortedSeq(S) == SetToSortSeq(S, LAMBDA a, b : a < b)
 IterAll(S) == SortedSeq(S)
 IterFrom(S, p) == SortedSeq({k \in S : k >= p})
 IterBetween(S, lo, hi) == SortedSeq({k \in S : k >= lo /\ k <= hi})      \* lo > hi must be rejected instead
+\* an iterator that is open while keys are inserted (S0 = keys at its creation, S1 = keys when it is drained): ascending, inside its bounds,
+\* nothing that was never inserted, and nothing missing that was there from the start
+LiveIterOk(S0, S1, kind, lo, hi, out) ==
+  LET In(k) == IF kind = "all" THEN TRUE ELSE IF kind = "from" THEN k >= lo ELSE k >= lo /\ k <= hi IN
+  /\ \A i \in 1..(Len(out) - 1) : out[i] < out[i + 1]
+  /\ \A i \in 1..Len(out) : out[i] \in S1 /\ In(out[i])
+  /\ \A k \in S0 : In(k) => \E i \in 1..Len(out) : out[i] = k
 \* k-way merge: out is a sequence of <<key, input index>>
 RECURSIVE Flatten(_, _)
 Flatten(inputs, i) == IF i > Len(inputs) THEN {} ELSE {<<inputs[i][j], i, j>> : j \in 1..Len(inputs[i])} \cup Flatten(inputs, i + 1)
